@@ -35,8 +35,10 @@ mut('c01-ttacc-count-assign', ['C01', 'C09'], 'scared/ttest.py',
     "        self.processed_traces += traces.shape[0]", "        self.processed_traces = traces.shape[0]")
 mut('c01-dpa-ones-first-batch-only', ['C01'], 'scared/distinguishers/dpa.py',
     "        self.processed_ones += _np.sum(data, axis=0)", "        if not self.processed_ones.any():\n            self.processed_ones += _np.sum(data, axis=0)")
-mut('c01-tbuild-compute-mutates-counters', ['C01'], 'scared/distinguishers/template.py',
-    "        tmp_counters = _np.copy(self._counters).astype(self.precision)", "        tmp_counters = self._counters")
+# (until fix 262809e this slot held "compute() aliases the counters"; the in-place write it relied on is gone, see seeded/C01-a)
+mut('c01-tbuild-compute-normalises-sums-in-place', ['C01'], 'scared/distinguishers/template.py',
+    "        templates = (self._exi.swapaxes(0, 1) / _np.maximum(tmp_counters, 1)).swapaxes(0, 1)\n",
+    "        self._exi = (self._exi.swapaxes(0, 1) / _np.maximum(tmp_counters, 1)).swapaxes(0, 1)\n        templates = self._exi\n")
 # ---- C02
 mut('c02-drop-tail-of-one', ['C02'], 'scared/container.py',
     "        if len(ths) % batch_size != 0:", "        if len(ths) % batch_size > 1:")
@@ -118,7 +120,9 @@ mut('ctl-container-slices-by-arange', [], 'scared/container.py',
     "            for start in range(len(ths) // batch_size)", "            for start in list(range(0, len(ths) // batch_size, 1))",
     controls=['C02', 'C08'])
 # a *correct* polling variant of the join loop (timed joins, then a blocking join that re-raises): the thread simulation must model
-# join(timeout) and stay silent
+# join(timeout) and stay silent.  (The first version of this control let a timed join re-raise the stored exception while the thread was
+# still alive; C09 rightly reported it: after a failed run, the next run()'s first poll could come before the new thread had reset
+# _exception and re-raised the OLD failure - 117 of 8000 scenarios.  The control now only looks at the exception once the thread is done.)
 mut('ctl-ttest-polling-join-correct', [], 'scared/ttest.py',
     "            for accu in self.accumulators:\n                accu.join()\n                accu.compute()\n",
     "            pending = list(self.accumulators)\n            while pending:\n                for accu in list(pending):\n                    accu.join(timeout=0.02)\n"
@@ -134,7 +138,7 @@ for m in M:
         m['extra'] = ('scared/ttest.py', "logger = _logging.getLogger(__name__)\n", "logger = _logging.getLogger(__name__)\n_SHARED = {}\n")
     if m['id'] == 'ctl-ttest-polling-join-correct':
         m['extra'] = ('scared/ttest.py', "    def join(self):\n        \"\"\"Wait end of thread processing and check for exception. Reraise if any.\"\"\"\n        super().join()\n",
-                      "    def join(self, timeout=None):\n        \"\"\"Wait end of thread processing and check for exception. Reraise if any.\"\"\"\n        super().join(timeout)\n")
+                      "    def join(self, timeout=None):\n        \"\"\"Wait end of thread processing and check for exception. Reraise if any.\"\"\"\n        super().join(timeout)\n        if self.is_alive():\n            return\n")
     if m['id'] == 'c16-cpa-check-after-first-accumulation':
         m['extra'] = ('scared/distinguishers/cpa.py', "        self.ey2 += _np.sum(_data ** 2, axis=0)\n",
                       "        self.ey2 += _np.sum(_data ** 2, axis=0)\n        if traces.shape[1] != self.ex.shape[0]:\n            raise DistinguisherError(f'traces have different size {traces.shape[1]} than already processed traces {self.ex.shape[0]}.')\n")
